@@ -108,6 +108,37 @@ VP_ENTRY vp_main_opt_cmp_en() { t_compare<true, false>(); }
 VP_ENTRY vp_main_opt_cmp_ne() { t_compare<false, true>(); }
 VP_ENTRY vp_main_opt_cmp_nn() { t_compare<false, false>(); }
 
+// converting construction / assignment from Optional<U> (U = P2, convertible to P) on an engaged or empty target:
+// same obligations as the same-type forms, incl. the ghost lifetime map (an overwritten or dropped payload is destroyed once)
+template <int OP, bool TE, bool SE> static void t_convassign()
+{
+  vp_nothrow(true);
+  int tid = vp_nondet_int(), sid = vp_nondet_int();
+  {
+    Optional<P> *t = mk<TE>(tid);
+    Optional<P2> *s = new Optional<P2>(); if (SE) { P2 v; v.v = sid; *s = v; }
+    const Optional<P2> &cs = *s;
+    switch (OP) {
+    case 0: *t = cs; break;
+    case 1: *t = std::move(*s); break;
+    case 2: { Optional<P> c(cs); vp_assert(c.has_value() == SE, "converting copy construction: engaged exactly like its source"); if (SE) vp_assert(c->id == sid, "converting copy construction carries the value"); } break;
+    case 3: { Optional<P> c(std::move(*s)); vp_assert(c.has_value() == SE, "converting move construction: engaged exactly like its source"); if (SE) vp_assert(c->id == sid, "converting move construction carries the value"); } break;
+    }
+    if (OP <= 1) {
+      vp_assert(t->has_value() == SE, "after a converting assignment the target is engaged exactly when the source was");
+      if (SE) vp_assert((*t)->id == sid, "converting assignment carries the source value");
+    }
+    if (OP == 0 || OP == 2) { vp_assert(s->has_value() == SE, "converting copy leaves the source as it was"); if (SE) vp_assert((*s)->v == sid, "converting copy is independent of its source"); }
+    delete t; delete s;
+  }
+  vp_assert(g_nlive == 0 && g_ctor == g_dtor, "every payload constructed was destroyed exactly once (converting forms)");
+  vp_reach("end");
+}
+#define CASG(OP, TE, SE, n) VP_ENTRY vp_main_opt_##n() { t_convassign<OP, TE, SE>(); }
+CASG(0, true, true, convcopyassign_ee) CASG(0, true, false, convcopyassign_en) CASG(0, false, true, convcopyassign_ne) CASG(0, false, false, convcopyassign_nn)
+CASG(1, true, true, convmoveassign_ee) CASG(1, true, false, convmoveassign_en) CASG(1, false, true, convmoveassign_ne) CASG(1, false, false, convmoveassign_nn)
+CASG(2, false, true, convcopyctor_e) CASG(2, false, false, convcopyctor_n) CASG(3, false, true, convmovector_e) CASG(3, false, false, convmovector_n)
+
 VP_ENTRY vp_main_opt_conv()
 {
   vp_nothrow(true);
